@@ -181,7 +181,6 @@ func ruleSelectorCacheDiscipline(c *Ctx) {
 	c.Check(okL, "c19.clean-failure", erKey+"/lock-pairing", c.P.Pos(er.Pos()), "every return path has Lock/Unlock balanced", whyL)
 }
 
-
 func init() { register("C09", ruleC09ErrorSites, ruleSelectorCacheDiscipline) }
 
 // ruleC09ErrorSites: the error discipline of C19 restricted to the selector evaluator: a step applied to a value of
